@@ -17,7 +17,7 @@ Challenges == { <<0, 0, 0, 0, 0, 0, 0, 0>>, <<255, 255, 255, 255, 255, 255, 255,
 RandBytes(n) == [i \in 1..n |-> RandomElement(0..255)]
 FlagClasses == {"default", "noversion", "oem", "oem_noversion", "unicode_and_oem", "unicode_and_oem_noversion"}
 
-ValLen(id) == IF id = 6 THEN 4 ELSE IF id = 7 THEN 8 ELSE IF id = 8 THEN 48 ELSE IF id = 10 THEN 16 ELSE Pick({0, 2, 8, 30, 400})
+ValLen(id) == IF id = 6 THEN 4 ELSE IF id = 7 THEN 8 ELSE IF id = 8 THEN 48 ELSE IF id = 10 THEN 16 ELSE Pick({0, 1, 2, 3, 7, 8, 30, 31, 400})
 RECURSIVE Shuffle(_)
 Shuffle(S) == IF S = {} THEN <<>> ELSE LET x == Pick(S) IN <<x>> \o Shuffle(S \ {x})
 TargetInfo == LET ids == Shuffle({7} \cup { i \in {1, 2, 3, 4, 5, 6, 8, 9, 10} : Pick(BOOLEAN) }) IN
